@@ -175,8 +175,66 @@ let eval_k = memo1 (fun (ss, ops) ->
       | ('s', i, _) -> "s" ^ show_ksplit (M.split (kelem l i))
       | _ -> "?")) (String.split_on_char ',' ops)))
 
+(* M lines (round 5, harness/cmd/shelltrace/round5.go): ONE scanner, two inputs.
+     M <kind1> <src1> <ops1|-> <kind2> <src2> <ops2|->
+   NewScanner over src1, the session ops1, Reset onto src2, Text / Complete / Err right after the
+   Reset (the Z observation), the session ops2.  The reader kinds are the harness's business: neither
+   the model nor the reference looks at how the bytes arrive.  The model is the extracted one all the
+   way: run_opsx for the two sessions, reset_sc (whose behaviour comes from Gen) applied to the state
+   the first session left.  That state is obtained by stepping the extracted next / rest /
+   scanner_split / scanner_each in the order of the ops (run_opsx returns observations only).
+   Kind x<k> (the first reader fails after k bytes): the first session is a prelude whose
+   observations are not recorded ("P"); for the state it leaves, the model sees the first k bytes. *)
+let chars s = List.init (String.length s) (String.get s)
+let mops o = if o = "-" then [] else List.filter (fun c -> c <> 'z' && xop_of_char c <> None) (chars o)
+let mkind_ok first k =
+  let n = String.length k in
+  n > 0 &&
+  (match k.[0] with
+   | 'f' -> (let d = String.sub k 1 (n - 1) in
+             let rec strip i = if i < String.length d && (d.[i] = 'e' || d.[i] = 'z') then strip (i + 1) else i in
+             let i = strip 0 in true || i >= 0)      (* any frag descriptor: the harness reads it with Atoi, 0 when unreadable *)
+   | 's' | 'b' | 'B' | 'u' | 'v' | 'w' | 'o' | 'm' | 'l' | 't' -> n = 1
+   | '0' -> first && n = 1
+   | 'x' -> first && (match int_of_string_opt (String.sub k 1 (n - 1)) with Some v -> v >= 0 && String.sub k 1 (n - 1) <> "" && k.[1] <> '+' && k.[1] <> '-' | None -> false)
+   | _ -> false)
+let rec state_after sc = function
+  | [] -> Some sc
+  | M.XNext :: r -> (match M.next sc with None -> None | Some (sc', _) -> state_after sc' r)
+  | M.XRest :: r -> let (sc', _) = M.rest sc in state_after sc' r
+  | (M.XErr | M.XReset) :: r -> state_after sc r
+  | M.XSplit :: r -> (match M.scanner_split sc with None -> None | Some (sc', _) -> state_after sc' r)
+  | M.XEach stop :: r -> (match M.scanner_each sc stop with None -> None | Some (sc', _) -> state_after sc' r)
+let rec take_n k l = if k <= 0 then [] else match l with [] -> [] | x :: t -> x :: take_n (k - 1) t
+let show_outs cs outs =
+  let rec zip cs outs = match cs, outs with
+    | c :: cs', o :: outs' -> show_xout (String.make 1 c) o :: zip cs' outs'
+    | _, _ -> [] in
+  zip cs outs
+type mline = { m_pre : bool; m_nil : bool; m_src1 : M.n list; m_c1 : char list; m_src2 : M.n list; m_c2 : char list; m_k : int }
+let parse_m = function
+  | ["M"; k1; s1; o1; k2; s2; o2] when mkind_ok true k1 && mkind_ok false k2 ->
+    (try
+       let c1 = mops o1 in
+       if k1 = "0" && c1 <> [] then None else
+       Some { m_pre = (k1.[0] = 'x'); m_nil = (k1 = "0"); m_src1 = unhex s1; m_c1 = c1; m_src2 = unhex s2; m_c2 = mops o2;
+              m_k = (if k1.[0] = 'x' then int_of_string (String.sub k1 1 (String.length k1 - 1)) else 0) }
+     with _ -> None)
+  | _ -> None
+let eval_m m =
+  let ops1 = List.filter_map xop_of_char m.m_c1 and ops2 = List.filter_map xop_of_char m.m_c2 in
+  let start = if m.m_nil then M.pool_new else M.new_scanner (if m.m_pre then take_n m.m_k m.m_src1 else m.m_src1) in
+  let outs1 = if m.m_pre then ["P"] else show_outs m.m_c1 (M.run_opsx m.m_src1 start ops1) in
+  match state_after start ops1 with
+  | None -> String.concat ";" outs1          (* the model panics in the first session: its last observation says so *)
+  | Some sc1 ->
+    let scz = M.reset_sc sc1 m.m_src2 in
+    let z = "Z" ^ hex (M.text scz) ^ ":" ^ b01 (M.complete scz) ^ ":" ^ (if M.err_eof scz then "e1" else "e0") in
+    String.concat ";" (outs1 @ z :: show_outs m.m_c2 (M.run_opsx m.m_src2 scz ops2))
+
 let eval inp =
   match words (unus inp) with
+  | "M" :: _ as w -> (match parse_m w with Some m -> eval_m m | None -> "?")
   | ["S"; s] -> show_split (M.split (unhex s))
   | ["Q"; s] -> hex (M.quote (unhex s))
   | ["J"; ss] -> hex (M.join (unhexs ss))
@@ -328,8 +386,47 @@ let spec_k prop ss ops out =
     go 1 ops outs
   end
 
+(* the property on an M line: the first session is a session on src1 (session_okx, as for N lines);
+   right after Reset there is no token, Complete holds and Err is nil -- as for a new scanner; and
+   the second session is, observation for observation, a session of a FRESH scanner on src2
+   (session_okx src2), whatever the first session was and whatever the readers are *)
+let spec_m m out =
+  let obs = if out = "" then [] else String.split_on_char ';' out in
+  if List.mem "RUNAWAY" obs then Some "the scanner never stops" else
+  let rec cut acc = function
+    | [] -> None
+    | o :: r when String.length o > 0 && o.[0] = 'Z' -> Some (List.rev acc, o, r)
+    | o :: r -> cut (o :: acc) r in
+  match cut [] obs with
+  | None -> Some (if List.mem "PANIC" obs then "the scanner panicked in the first session" else "bad output syntax")
+  | Some (o1, z, o2) ->
+    let ops1 = List.filter_map xop_of_char m.m_c1 and ops2 = List.filter_map xop_of_char m.m_c2 in
+    if m.m_pre && o1 <> ["P"] then Some "bad output syntax" else
+    if not m.m_pre && not (M.session_okx m.m_src1 ops1 (List.map parse_xout o1)) then
+      Some "first session (before Reset): observations rejected by the reference session checker" else
+    if z <> "Z-:1:e0" then
+      Some ("right after Reset the scanner is not like a new one (want no token, Complete, Err nil): " ^ z) else
+    if List.mem "PANIC" o2 then Some "the scanner panicked after Reset" else
+    if M.session_okx m.m_src2 ops2 (List.map parse_xout o2) then None
+    else
+      let detail =
+        (* wording only: the first Rest of the second session against the unconsumed input *)
+        let full = m.m_src2 in
+        let rec first_rest cs os = match cs, os with
+          | 'r' :: _, o :: _ when String.length o > 0 && o.[0] = 'r' -> Some (unhex (String.sub o 1 (String.length o - 1)))
+          | _ :: cs', _ :: os' -> first_rest cs' os'
+          | _, _ -> None in
+        match (try first_rest m.m_c2 o2 with _ -> None) with
+        | Some r ->
+          let lf = List.length full and lr = List.length r in
+          let rec drop k l = if k <= 0 then l else match l with [] -> [] | _ :: t -> drop (k - 1) t in
+          if lr > lf || drop (lf - lr) full <> r then " (Rest is not a suffix of the second input: bytes of an earlier input, or lost bytes)" else ""
+        | None -> "" in
+      Some ("after Reset onto a second input the scanner does not behave like a fresh scanner on that input: observations rejected by the reference session checker" ^ detail)
+
 let spec prop inp out =
   match prop, words (unus inp) with
+  | "C16", ("M" :: _ as w) -> (match parse_m w with Some m -> spec_m m out | None -> None)
   | "C15", (("Q" | "J" | "H") :: _) when too_long_for (match words (unus inp) with [_; ss] -> unhexs ss | _ -> []) out ->
     Some "the result is longer than any quotation of the arguments"
   | _, ["K"; ss; ops] -> spec_k prop ss ops out
